@@ -1,13 +1,14 @@
 """C05 - children(), parent() and parents() describe the real process tree."""
 from .common import *  # noqa: F401,F403
-from .common import Contract, Registry, LoopSpec, BASE_ENV, INIT, LINUX_PY, bounded_sweep
+from .common import Contract, Registry, LoopSpec, BASE_ENV, INIT, LINUX_PY, bounded_sweep, fold_fn
+from vc.contract import make_value
 from .frontproc import make_process
 from vc.interp import ModuleSrc, PS_EXC
 
 REGISTRY = Registry()
 TRUSTED = ["constructor oracle for Process(ppid) (object with its own start time, or NoSuchProcess)"]
 ASSUMPTIONS = ["start times order processes (a parent is never younger than its child unless the PID was recycled)"]
-NOT_COVERED = ["children(): the graph walk is covered by a bounded enumeration of all parent-link graphs over four "
+NOT_COVERED = ["children(recursive=True): the graph walk is covered by a bounded enumeration of all parent-link graphs over four "
                "PIDs (forests, self-loops, cycles, unlisted parents) x start-time orderings, not proved",
                "termination of parents() (not claimed by the statement)"]
 ENV = dict(BASE_ENV)
@@ -52,6 +53,98 @@ REGISTRY.add(Contract(
     ],
     raises={}, canaries=["result is None"], replay=None,
     note="the process named by ppid() unless that PID now belongs to a process younger than the caller"))
+
+
+# --- children(recursive=False): proof over an arbitrary pid -> ppid snapshot ---------------------------------------------
+
+class PidBag:
+    """stand-in for the list of child Process objects: only WHICH pids are in it matters (a set of ints)"""
+
+    def __init__(self, mem):
+        self.mem = mem
+
+    def vc_getattr(self, it, name):
+        if name == "append":
+            def app(it2, child):
+                pid = child.attrs["_pid"] if isinstance(child, Obj) else child
+                self.mem = smt.Store(self.mem, it2.term(pid), B(True))
+            return EnvFunc("append", app)
+        raise Unsupported(f"PidBag.{name}")
+
+
+def setup_children(it, cfg):
+    o = make_process(it, gone=False, reused=False)
+    me = o.attrs["_pid"]
+    myct = it.ctx.ghost["born"]
+    o.attrs["create_time"] = EnvFunc("create_time", lambda it2: myct)
+    o.attrs["_raise_if_pid_reused"] = EnvFunc("_raise_if_pid_reused", lambda it2: None)
+    pm = make_value(it, "ppid_map", ("Map", "Int", "Int", "keys"))
+    it.env_over["__init__._ppid_map"] = EnvFunc("_ppid_map", lambda it2: pm)
+    it.ctx.uf("child_alive", ["Int"], "Bool")        # oracle: is that pid still there when Process(pid) is built?
+    it.ctx.uf("child_zombie", ["Int"], "Bool")
+    it.ctx.uf("child_born", ["Int"], "Real")
+    mod = ModuleSrc.get(INIT)
+
+    def alive(p):
+        return smt.app("child_alive", "Bool", p)
+
+    def born(p):
+        return smt.app("child_born", "Real", p)
+
+    def zombie(p):
+        return smt.app("child_zombie", "Bool", p)
+
+    def ctor_effect(it2, env, exc):
+        p = it2.term(env["pid"])
+        if not it2.truth(alive(p), "child-listed"):
+            it2.raise_(PS_EXC["NoSuchProcess"][0], pid=env["pid"])
+        po = env["self"]
+        po.module = mod
+
+        def ct(it3):
+            if it3.truth(zombie(p), "child-zombie"):
+                it3.raise_(PS_EXC["ZombieProcess"][0], pid=env["pid"])
+            return born(p)
+        po.attrs.update({"_pid": env["pid"], "create_time": EnvFunc("create_time", ct)})
+
+    it.ctx.ghost["ctor_effect"] = ctor_effect
+    n = smt.Len(pm.keys)
+
+    def key(j):
+        return smt.Nth(pm.keys, j)
+
+    def cond(j):
+        k = key(j)
+        return And(Eq(smt.Select(pm.vals, k), me), Not(Eq(k, me)), alive(k), Not(zombie(k)), smt.Cmp("<=", myct, born(k)))
+
+    S = fold_fn(it, "children_S", ("Array", "Int", "Bool"), n, smt.ConstArray("Int", B(False)),
+                lambda j, prev: Ite(cond(j), smt.Store(prev, key(j), B(True)), prev))
+    return {"args": {"self": o, "recursive": False},
+            "spec": {"S": EnvFunc("S", lambda it2, x: S(x)), "n": n, "me": me}, "values": [me]}
+
+
+def h_bag_is(it, bag, arr):
+    if isinstance(bag, PidBag):
+        return Eq(bag.mem, arr)
+    if isinstance(bag, list) and not bag:
+        return Eq(smt.ConstArray("Int", B(False)), arr)
+    raise Unsupported("bag_is")
+
+
+def children_havoc(it, fr):
+    f = fr
+    while f is not None and "ret" not in f.env:
+        f = f.parent
+    f.env["ret"] = PidBag(it.fresh("children_so_far", ("Array", "Int", "Bool")))
+
+
+REGISTRY.add(Contract(
+    "C05", INIT, "Process.children", name="__init__.Process.children(recursive=False)", setup=setup_children, env=ENV,
+    inline=["pid"], helpers={"bag_is": h_bag_is},
+    loops={0: LoopSpec(inv=["bag_is(ret, S(_i))"], havoc={"ret": "keep"}, on_havoc=children_havoc)},
+    ensures=["bag_is(result, S(n))"], raises={}, canaries=[], replay="c05:tree",
+    note="children() == exactly the listed pids whose recorded parent is this process, other than itself, still there "
+         "(not vanished, not a zombie) when looked at, and not older than the caller - for every pid -> ppid snapshot"))
 
 
 # --- children(): bounded ------------------------------------------------------------------------------------
